@@ -164,6 +164,8 @@ class ProgressBar(object):
 
         if max is not None:
             self._set_max_steps(max)
+            # The format depends on whether there is a maximum: determine it again
+            self._format = None
 
         self.display()
 
